@@ -3,6 +3,11 @@ import GridVerif.Props.C13.Weights
 import GridVerif.Props.C13.Helpers
 import GridVerif.Props.C13.Interp
 import GridVerif.Props.C13.InterpModel
+import GridVerif.Props.C13.GenWeights
+import GridVerif.Props.C13.GenHelpers
+import GridVerif.Props.C13.Linear
+import GridVerif.Props.C13.CubeUnits
+import GridVerif.Props.C13.Fourier1
 
 #print axioms GridVerif.C13.coordinates_to_index_eq3
 #print axioms GridVerif.C13.coordinates_to_index_eq2
@@ -58,3 +63,49 @@ import GridVerif.Props.C13.InterpModel
 #print axioms GridVerif.C13.interp_cubic_eq_nested
 #print axioms GridVerif.C13.interp_cubic_exact
 #print axioms GridVerif.C13.uniform_diag_is_tensor
+#print axioms GridVerif.C13.gen_volume_eq3
+#print axioms GridVerif.C13.gen_volume_eq2
+#print axioms GridVerif.C13.gen_volume_of_model
+#print axioms GridVerif.C13.gen_alt_volume_of_model
+#print axioms GridVerif.C13.gen_rectangle
+#print axioms GridVerif.C13.gen_trapezoid
+#print axioms GridVerif.C13.gen_alternative
+#print axioms GridVerif.C13.gen_fourier2_dir
+#print axioms GridVerif.C13.gen_fourier2_3d
+#print axioms GridVerif.C13.gen_fourier2_2d
+#print axioms GridVerif.C13.gen_fourier1_step
+#print axioms GridVerif.C13.gen_fourier1_3d
+#print axioms GridVerif.C13.gen_fourier1_2d
+#print axioms GridVerif.C13.gen_unknown_scheme
+#print axioms GridVerif.C13.rectangle_sum_gen
+#print axioms GridVerif.C13.trapezoid_sum_gen
+#print axioms GridVerif.C13.alternative_sum_gen
+#print axioms GridVerif.C13.scheme_bounds_gen
+#print axioms GridVerif.C13.fourier2_sum_zero_even_gen
+#print axioms GridVerif.C13.gen_closest_eval3
+#print axioms GridVerif.C13.gen_closest_eval2
+#print axioms GridVerif.C13.gen_closest_eq_model3
+#print axioms GridVerif.C13.gen_closest_eq_model2
+#print axioms GridVerif.C13.closest_point_spec3_gen
+#print axioms GridVerif.C13.closest_point_spec2_gen
+#print axioms GridVerif.C13.closest_point_origin_spec3_gen
+#print axioms GridVerif.C13.closest_point_rejects_gen
+#print axioms GridVerif.C13.gen_from_molecule_spec
+#print axioms GridVerif.C13.gen_from_molecule_norotate
+#print axioms GridVerif.C13.gen_from_molecule_rotate
+#print axioms GridVerif.C13.from_molecule_margin_centred_gen
+#print axioms GridVerif.C13.from_molecule_witness_gen
+#print axioms GridVerif.C13.from_molecule_rotate_witness_gen
+#print axioms GridVerif.C13.fourier1_sum
+#print axioms GridVerif.C13.fourier1_bound_of_axis_bounds
+#print axioms GridVerif.C13.fourier1_bound_of_axis_bounds_gen
+#print axioms GridVerif.C13.exists_cell
+#print axioms GridVerif.C13.multilinear_cell_exact
+#print axioms GridVerif.C13.pointsAlongAxes_tensor
+#print axioms GridVerif.C13.linear_reproduces_trilinear
+#print axioms GridVerif.C13.from_cube_paths_agree
+#print axioms GridVerif.C13.from_cube_angstrom_converted
+#print axioms GridVerif.C13.from_cube_bohr_unconverted
+#print axioms GridVerif.C13.from_cube_atoms_converted
+#print axioms GridVerif.C13.from_cube_unit_flag
+#print axioms GridVerif.C13.generate_cube_writes_stored_units
